@@ -12,7 +12,7 @@ import (
 
 // ---------------------------------------------------------------- in-memory source view
 
-type memEntry struct {
+type vh_memEntry struct {
 	stat *types.Stat
 	data []byte
 	// openErr makes Open fail for this entry
@@ -23,16 +23,16 @@ type memEntry struct {
 
 // memFS is a synthetic FS view: entries listed in protocol order, contents in memory; Open hands
 // the bytes out in solver-chosen fragments.
-type memFS struct {
-	entries    []*memEntry
+type vh_memFS struct {
+	entries    []*vh_memEntry
 	walkErrAt  int // index at which Walk reports an error (-1: never)
 	wholeReads bool
 }
 
-func (f *memFS) Walk(ctx context.Context, target string, fn gofs.WalkDirFunc) error {
+func (f *vh_memFS) Walk(ctx context.Context, target string, fn gofs.WalkDirFunc) error {
 	for i, e := range f.entries {
 		if i == f.walkErrAt {
-			return fn(e.stat.Path, nil, errInjected)
+			return fn(e.stat.Path, nil, vh_errInjected)
 		}
 		st := e.stat.Clone()
 		if err := fn(st.Path, &DirEntryInfo{Stat: st}, nil); err != nil {
@@ -45,30 +45,30 @@ func (f *memFS) Walk(ctx context.Context, target string, fn gofs.WalkDirFunc) er
 	return nil
 }
 
-var errInjected = &os.PathError{Op: "injected", Path: "x", Err: os.ErrInvalid}
+var vh_errInjected = &os.PathError{Op: "injected", Path: "x", Err: os.ErrInvalid}
 
-func (f *memFS) Open(p string) (io.ReadCloser, error) {
+func (f *vh_memFS) Open(p string) (io.ReadCloser, error) {
 	for _, e := range f.entries {
 		if e.stat.Path == p {
 			if e.openErr {
-				return nil, errInjected
+				return nil, vh_errInjected
 			}
-			return &fragFile{data: e.data, failAfter: e.readErrAfter, whole: f.wholeReads}, nil
+			return &vh_fragFile{data: e.data, failAfter: e.readErrAfter, whole: f.wholeReads}, nil
 		}
 	}
 	return nil, os.ErrNotExist
 }
 
-type fragFile struct {
+type vh_fragFile struct {
 	data      []byte
 	pos       int
 	failAfter int  // >0: return an error once failAfter-1 bytes were handed out
 	whole     bool // hand out everything in one read
 }
 
-func (r *fragFile) Read(p []byte) (int, error) {
+func (r *vh_fragFile) Read(p []byte) (int, error) {
 	if r.failAfter > 0 && r.pos >= r.failAfter-1 {
-		return 0, errInjected
+		return 0, vh_errInjected
 	}
 	rem := len(r.data) - r.pos
 	if rem == 0 {
@@ -98,25 +98,25 @@ func (r *fragFile) Read(p []byte) (int, error) {
 	return n, nil
 }
 
-func (r *fragFile) Close() error { return nil }
+func (r *vh_fragFile) Close() error { return nil }
 
 // entry classes used by the harnesses
 const (
-	clsDir = iota
-	clsFile
-	clsSymlink
-	clsFifo
-	clsCount
+	vh_clsDir = iota
+	vh_clsFile
+	vh_clsSymlink
+	vh_clsFifo
+	vh_clsCount
 )
 
-func modeFor(class int, perm uint32) uint32 {
+func vh_modeFor(class int, perm uint32) uint32 {
 	perm &= 0777
 	switch class {
-	case clsDir:
+	case vh_clsDir:
 		return uint32(os.ModeDir) | perm
-	case clsSymlink:
+	case vh_clsSymlink:
 		return uint32(os.ModeSymlink) | perm
-	case clsFifo:
+	case vh_clsFifo:
 		return uint32(os.ModeNamedPipe) | perm
 	}
 	return perm
@@ -126,7 +126,7 @@ func modeFor(class int, perm uint32) uint32 {
 
 // memStream is one end of a duplex packet channel; packets are deep-copied on send so that the
 // two ends never share buffers.
-type memStream struct {
+type vh_memStream struct {
 	ctx          context.Context
 	in           chan *types.Packet
 	out          chan *types.Packet
@@ -143,13 +143,13 @@ type memStream struct {
 	overlap      bool          // two SendMsg (or two RecvMsg) calls were in flight at once
 }
 
-func newStreamPair(ctx context.Context, capacity int) (*memStream, *memStream) {
+func vh_newStreamPair(ctx context.Context, capacity int) (*vh_memStream, *vh_memStream) {
 	a2b, b2a := make(chan *types.Packet, capacity), make(chan *types.Packet, capacity)
 	brk := make(chan struct{})
-	return &memStream{ctx: ctx, in: b2a, out: a2b, brk: brk}, &memStream{ctx: ctx, in: a2b, out: b2a, brk: brk}
+	return &vh_memStream{ctx: ctx, in: b2a, out: a2b, brk: brk}, &vh_memStream{ctx: ctx, in: a2b, out: b2a, brk: brk}
 }
 
-func copyPacket(p *types.Packet) *types.Packet {
+func vh_copyPacket(p *types.Packet) *types.Packet {
 	q := &types.Packet{Type: p.Type, ID: p.ID}
 	if p.Stat != nil {
 		q.Stat = p.Stat.Clone()
@@ -160,7 +160,7 @@ func copyPacket(p *types.Packet) *types.Packet {
 	return q
 }
 
-func (s *memStream) SendMsg(m interface{}) error {
+func (s *vh_memStream) SendMsg(m interface{}) error {
 	if s.sendBusy {
 		s.overlap = true
 	}
@@ -171,31 +171,31 @@ func (s *memStream) SendMsg(m interface{}) error {
 		s.onSend(s.sends)
 	}
 	if s.sends == s.sendErrAt {
-		return errInjected
+		return vh_errInjected
 	}
 	select {
 	case <-s.brk:
-		return errBroken
+		return vh_errBroken
 	default:
 	}
 	if pk := m.(*types.Packet); pk.Type == types.PACKET_REQ {
 		s.reqs = append(s.reqs, pk.ID)
 	}
 	select {
-	case s.out <- copyPacket(m.(*types.Packet)):
+	case s.out <- vh_copyPacket(m.(*types.Packet)):
 		if s.latency {
 			v.Yield() // a transport whose SendMsg returns some time after the peer has seen the packet
 		}
 		return nil
 	case <-s.brk:
-		return errBroken
+		return vh_errBroken
 	}
 }
 
-var errBroken = &os.PathError{Op: "stream", Path: "torn down", Err: os.ErrClosed}
+var vh_errBroken = &os.PathError{Op: "stream", Path: "torn down", Err: os.ErrClosed}
 
 // Break tears the transport down: every pending and future stream call on either end fails.
-func (s *memStream) Break() {
+func (s *vh_memStream) Break() {
 	select {
 	case <-s.brk:
 	default:
@@ -203,7 +203,7 @@ func (s *memStream) Break() {
 	}
 }
 
-func (s *memStream) RecvMsg(m interface{}) error {
+func (s *vh_memStream) RecvMsg(m interface{}) error {
 	if s.recvBusy {
 		s.overlap = true
 	}
@@ -211,14 +211,14 @@ func (s *memStream) RecvMsg(m interface{}) error {
 	defer func() { s.recvBusy = false }()
 	s.recvs++
 	if s.recvs == s.recvErrAt {
-		return errInjected
+		return vh_errInjected
 	}
 	var p *types.Packet
 	var ok bool
 	select {
 	case p, ok = <-s.in:
 	case <-s.brk:
-		return errBroken
+		return vh_errBroken
 	}
 	if !ok {
 		return io.EOF
@@ -232,6 +232,6 @@ func (s *memStream) RecvMsg(m interface{}) error {
 	return nil
 }
 
-func (s *memStream) Context() context.Context { return s.ctx }
+func (s *vh_memStream) Context() context.Context { return s.ctx }
 
-func (s *memStream) CloseSend() { close(s.out) }
+func (s *vh_memStream) CloseSend() { close(s.out) }
